@@ -106,6 +106,10 @@ type Mutant struct {
 	New    string `json:"new"`
 	Expect string `json:"expect_key_contains"`
 	Why    string `json:"why"`
+	// Patch, when set, is a unified diff (path relative to the verification
+	// directory) applied to the scratch copy instead of the File/Old/New edit:
+	// the kept seeded changes serve as controls this way.
+	Patch string `json:"patch,omitempty"`
 }
 
 type controlResult struct {
@@ -193,7 +197,7 @@ func runControls(pr *Property, repo, verif string) ([]controlResult, []Obligatio
 			defer wg.Done()
 			sem <- struct{}{}
 			defer func() { <-sem }()
-			results[i] = runControl(m, repo)
+			results[i] = runControl(m, repo, verif)
 		}(i, m)
 	}
 	wg.Wait()
@@ -236,8 +240,11 @@ func baselineFailures(repo, rule string) (map[string]bool, error) {
 	return out, err
 }
 
-func runControl(m Mutant, repo string) controlResult {
+func runControl(m Mutant, repo, verif string) controlResult {
 	res := controlResult{Name: m.Name, Rule: m.Rule}
+	if m.Patch != "" {
+		return runPatchControl(m, repo, verif)
+	}
 	src, err := os.ReadFile(filepath.Join(repo, m.File))
 	newFile := m.Old == ""
 	if newFile {
@@ -303,5 +310,64 @@ func runControl(m Mutant, repo string) controlResult {
 	}
 	res.Status = "did-not-fire"
 	res.Detail = "variant compiled but the rule reported no new failing obligation whose key contains " + m.Expect
+	return res
+}
+
+// runPatchControl applies a kept seeded change to a scratch copy of the tree;
+// the rule must report a new failing obligation whose key contains Expect.
+func runPatchControl(m Mutant, repo, verif string) controlResult {
+	res := controlResult{Name: m.Name, Rule: m.Rule}
+	patch, err := filepath.Abs(filepath.Join(verif, m.Patch))
+	if err != nil {
+		res.Status, res.Detail = "did-not-fire", err.Error()
+		return res
+	}
+	if _, err := os.Stat(patch); err != nil {
+		res.Status, res.Detail = "did-not-fire", "patch file missing: "+m.Patch
+		return res
+	}
+	baseFail, err := baselineFailures(repo, m.Rule)
+	if err != nil {
+		res.Status, res.Detail = "did-not-fire", fmt.Sprintf("baseline run failed: %v", err)
+		return res
+	}
+	dir, err := os.MkdirTemp("", "evcheck-control-")
+	if err != nil {
+		res.Status, res.Detail = "did-not-fire", err.Error()
+		return res
+	}
+	defer os.RemoveAll(dir)
+	if err := copyTree(repo, dir); err != nil {
+		res.Status, res.Detail = "did-not-fire", err.Error()
+		return res
+	}
+	ap := exec.Command("git", "apply", "--whitespace=nowarn", patch)
+	ap.Dir = dir
+	ap.Env = append(os.Environ(), "GIT_CEILING_DIRECTORIES="+filepath.Dir(dir))
+	if out, err := ap.CombinedOutput(); err != nil {
+		res.Status = "control-skipped"
+		res.Detail = "the seeded change no longer applies (the code moved on): " + lastLines(string(out), 2)
+		return res
+	}
+	build := exec.Command("go", "build", "./...")
+	build.Dir = dir
+	build.Env = goEnv()
+	if out, err := build.CombinedOutput(); err != nil {
+		res.Status, res.Detail = "does-not-build", lastLines(string(out), 3)
+		return res
+	}
+	got, err := runSub(dir, []string{m.Rule}, "")
+	if err != nil || got.LoadError != "" {
+		res.Status, res.Detail = "did-not-fire", fmt.Sprintf("run on variant failed: %v %s", err, got.LoadError)
+		return res
+	}
+	for _, o := range got.Obligations {
+		if (o.Verdict == Fail || o.Verdict == Undecided) && !baseFail[o.Key] && strings.Contains(o.Key, m.Expect) {
+			res.Status, res.Detail = "fired", o.Key
+			return res
+		}
+	}
+	res.Status = "did-not-fire"
+	res.Detail = "the seeded change compiled but the rule reported no new failing obligation whose key contains " + m.Expect
 	return res
 }
